@@ -14,16 +14,17 @@ import (
 )
 
 type Prog struct {
-	Fset    *token.FileSet
-	SSA     *ssa.Program
-	Pkgs    []*packages.Package
-	ModPath string
-	Root    string
-	Tags    string
-	FnByKey map[string]*ssa.Function
-	AllFns  []*ssa.Function
-	CS      *Contracts
-	Effects map[*ssa.Function]*Effect
+	Fset          *token.FileSet
+	SSA           *ssa.Program
+	Pkgs          []*packages.Package
+	ModPath       string
+	Root          string
+	VerifRoot     string
+	Tags          string
+	FnByKey       map[string]*ssa.Function
+	AllFns        []*ssa.Function
+	CS            *Contracts
+	Effects       map[*ssa.Function]*Effect
 	HeapKeyType   map[string]types.Type
 	StoredGlobals map[*ssa.Global][]*ssa.Function
 	TrackedSigs   map[string]trackedSig
